@@ -181,6 +181,7 @@ func (r *rewriter) rewriteFile(f *loader.File, printer FilePrinter) {
 	do(r.rewriteForRanges)          // rewrite range co.Iter to for loop co.Iter
 	do(mkYieldRewriter(r, pkg))     // rewrite yield func
 	do(r.rewriteIter)               // rewrite all co.Iter to seq.Iterator
+	do(r.rejectStrayYield)          // every supported yield has been rewritten by now
 
 	// 3. write file
 	log.Printf("write file: %s\n", f.Filename)
@@ -188,6 +189,17 @@ func (r *rewriter) rewriteFile(f *loader.File, printer FilePrinter) {
 	// https://github.com/golang/go/issues/20744
 	f.File.Comments = r.comments
 	printer(f.Filename, f)
+}
+
+// Yield / YieldFrom are stubs, a reference surviving the rewriting would drop its values silently,
+// e.g. used as func value `f := Yield[int]`, or passed as argument
+func (r *rewriter) rejectStrayYield(c *astutil.Cursor, pkg loader.Pkg) bool {
+	if id, ok := c.Node().(*ast.Ident); ok {
+		if obj := pkg.ObjectOf(id); obj != nil && (obj == r.yieldFunc || obj == r.yieldFromFunc) {
+			r.assert(pkg, false, c.Parent(), "%s can only be called directly as a statement of a yield func", id.Name)
+		}
+	}
+	return true
 }
 
 // ↓↓↓↓↓↓↓↓↓↓↓↓↓↓↓↓↓↓↓↓↓↓ Collect YieldFunc ↓↓↓↓↓↓↓↓↓↓↓↓↓↓↓↓↓↓↓↓↓↓
